@@ -34,7 +34,11 @@ def _problem(script, constraints=None, maximize=False, n=2):
             return self.ghost_last_ret
 
         def evaluate_inequality_constraints(self, x):
-            self.ghost_last_g = list(self.cons) if self.cons is not None else []
+            self.ghost_last_g_vec = x
+            if self.cons == "dep":
+                self.ghost_last_g = [x[0] - 0.5]        # feasibility depends on the vector
+            else:
+                self.ghost_last_g = list(self.cons) if self.cons is not None else []
             return self.ghost_last_g
     p = TP()
     p.logger.setLevel(logging.CRITICAL)
@@ -44,6 +48,7 @@ def _problem(script, constraints=None, maximize=False, n=2):
     p.ghost_nontransient = 0
     p.ghost_last_arg = p.ghost_last_vec = p.ghost_last_ret = None
     p.ghost_last_g = []
+    p.ghost_last_g_vec = None
     p.ghost_ncosts = 2
     p.surrogate.passthrough = True
     p.surrogate.ghost_trains = 0
@@ -102,7 +107,7 @@ def c05_job(rng, tier):
     if tier == "quick":
         scripts = [s for i, s in enumerate(scripts) if len(s) <= 3 or i % 5 == 0 or len(s) >= 5]
     for si, script in enumerate(scripts):
-        for cons in (None, [-1.0, -0.5], [-1.0, 0.0], [0.5]):
+        for cons in (None, [-1.0, -0.5], [-1.0, 0.0], [0.5], "dep"):
             if tier == "quick" and cons is not None and si % 3:
                 continue
             for state in (0, 2):
